@@ -105,10 +105,13 @@ fn stmt_facts(arena: &'static Arena, function: u32, class: ExprClass, reads: Vec
     }
 }
 
-// stmt_effective_class(stmt)  ==  Impure if a direct callee's summary is unavailable, otherwise the join of the statement's own
-//                                 class with every direct callee's TRANSITIVE class (so it is >= each of them: a statement is only
-//                                 PureNoTrap when everything it can reach is)
-// @harness property=C03 fn=opt::stmt_effective_class kind=bounded tier=quick cfg=release timeout=600 domain="bounded: statement with 0..=2 direct callees; every own class, every callee transitive class and availability"
+// stmt_effective_class(stmt): a statement may be removed only when it is PureNoTrap, so the class must account for everything a call
+//   can do that the caller could observe (C03):
+//   Impure  if a direct callee's summary is unavailable, or the callee (transitively) ASSIGNS A CAPTURED VARIABLE -- an effect visible to
+//           the caller whatever the class of the expressions the callee evaluates (defect P3, repaired);
+//   otherwise the join of the statement's own class with every direct callee's TRANSITIVE class, and at least PureMayTrap as soon as
+//   there is a callee at all: a call may never come back (endless loop, runaway recursion), which removal would hide (defect P4, repaired).
+// @harness property=C03 fn=opt::stmt_effective_class kind=bounded tier=quick cfg=release timeout=600 domain="bounded: statement with 0..=2 direct callees; every own class, every callee transitive class, availability and presence of captured writes"
 #[kani::proof]
 #[kani::unwind(6)]
 fn stmt_effective_class__contract() {
@@ -117,6 +120,7 @@ fn stmt_effective_class__contract() {
     let own = any_class();
     let (c0, c1) = (any_class(), any_class());
     let (a0, a1): (bool, bool) = (kani::any(), kani::any());
+    let (w0, w1): (bool, bool) = (kani::any(), kani::any());
     let ncallees: usize = kani::any();
     kani::assume(ncallees <= 2);
     let callees = match ncallees {
@@ -126,18 +130,25 @@ fn stmt_effective_class__contract() {
     };
     facts.stmt_effects = leak_vec(vec![stmt_facts(arena, 0, own, vec![], vec![], callees)], arena);
     // the body classes differ from the transitive ones on purpose: only the transitive class may be used
-    let summaries: &'static [FunctionSummary<'static>] = Box::leak(vec![summary(arena, a1, c1, vec![], vec![]), summary(arena, a0, c0, vec![], vec![])].into_boxed_slice());
+    let writes = |w: bool| if w { vec![LocalId(0)] } else { vec![] };
+    let summaries: &'static [FunctionSummary<'static>] =
+        Box::leak(vec![summary(arena, a1, c1, vec![], writes(w1)), summary(arena, a0, c0, vec![], writes(w0))].into_boxed_slice());
     let r = stmt_effective_class(StmtId(0), &facts, summaries);
+    let step = |acc: ExprClass, avail: bool, cw: bool, c: ExprClass| if !avail || cw { ExprClass::Impure } else { acc.join(c).join(ExprClass::PureMayTrap) };
     let mut expect = own;
     if ncallees >= 1 {
-        expect = if !a0 { ExprClass::Impure } else { expect.join(c0) };
+        expect = step(expect, a0, w0, c0);
     }
     if ncallees >= 2 {
-        expect = if !a1 { ExprClass::Impure } else { expect.join(c1) };
+        expect = step(expect, a1, w1, c1);
     }
-    assert!(r == expect, "post: Impure on an unavailable summary, else own class joined with every callee's transitive class");
+    assert!(r == expect, "post: Impure on an unavailable summary or a callee that assigns captured variables, else own class joined with every callee's transitive class and PureMayTrap");
     assert!(r >= own, "post: never less conservative than the statement's own class");
-    kani::cover!(ncallees == 2 && r == ExprClass::PureNoTrap, "cover: pure statement with two pure callees");
+    assert!(ncallees == 0 || r != ExprClass::PureNoTrap, "post: a statement that calls user code is never removable as trap-free");
+    assert!(!(ncallees >= 1 && w0) || r == ExprClass::Impure, "post: a callee that assigns a captured variable makes the statement impure");
+    kani::cover!(ncallees == 2 && r == ExprClass::PureMayTrap, "cover: pure statement with two pure callees");
+    kani::cover!(ncallees == 0 && r == ExprClass::PureNoTrap, "cover: call-free pure statement");
     kani::cover!(ncallees == 1 && !a0, "cover: unavailable summary");
+    kani::cover!(ncallees == 1 && a0 && w0, "cover: callee with captured writes");
     std::mem::forget(facts);
 }
